@@ -118,6 +118,47 @@ pub fn hang_failure(sig: &str, what: &str, h: Hang) -> Failure {
     }
 }
 
+/// Marker that precedes the thread samples `Child::wait` appends to the report of a child that
+/// ran into its time limit.
+pub const TIMEOUT_DIAG: &str = "\n#threads-at-timeout# ";
+
+/// "tid:state:syscall:wchan" of every thread of a process.
+fn proc_threads(pid: libc::pid_t) -> String {
+    let mut v = vec![];
+    if let Ok(dir) = std::fs::read_dir(format!("/proc/{}/task", pid)) {
+        for e in dir.flatten() {
+            let t = e.file_name().to_string_lossy().to_string();
+            let stat = std::fs::read_to_string(format!("/proc/{}/task/{}/stat", pid, t)).unwrap_or_default();
+            let state = stat.rsplit(')').next().unwrap_or("").split_whitespace().next().unwrap_or("?").to_string();
+            let sc = std::fs::read_to_string(format!("/proc/{}/task/{}/syscall", pid, t)).unwrap_or_default();
+            let wchan = std::fs::read_to_string(format!("/proc/{}/task/{}/wchan", pid, t)).unwrap_or_default();
+            v.push(format!("{}:{}:{}:{}", t, state, sc.split_whitespace().next().unwrap_or("?"), wchan.trim()));
+        }
+    }
+    v.sort();
+    v.join(",")
+}
+
+/// Verdict for a forked child that ran into its time limit, by the hang rule: it is a hang if
+/// every thread was asleep in the same system call at both samples; a child that was still
+/// running (or whose threads moved) was merely slow - inconclusive.
+pub fn child_timeout_failure(sig: &str, what: &str, report: &[u8]) -> Failure {
+    let text = String::from_utf8_lossy(report).to_string();
+    let (own, diag) = match text.split_once(TIMEOUT_DIAG) {
+        Some((a, b)) => (a.to_string(), b.to_string()),
+        None => (text.clone(), String::new()),
+    };
+    let asleep = match diag.split_once(" || ") {
+        Some((a, b)) => !a.is_empty() && a == b && a.split(',').all(|t| t.split(':').nth(1) == Some("S")),
+        None => false,
+    };
+    if asleep {
+        Failure::new(sig, format!("{} (every thread of the child asleep in the same call at two samples: {}) {}", what, diag, own))
+    } else {
+        Failure::inconclusive(format!("{}: time limit reached but the child was not asleep ({}) {}", what, diag, own))
+    }
+}
+
 #[derive(Debug, Clone)]
 pub enum ChildEnd {
     Exited(i32),
@@ -175,6 +216,7 @@ impl Child {
         let t0 = Instant::now();
         let mut status = 0i32;
         let end;
+        let mut diag = String::new();
         loop {
             let r = unsafe { libc::waitpid(self.pid, &mut status, libc::WNOHANG) };
             if r == self.pid {
@@ -189,6 +231,11 @@ impl Child {
                 break;
             }
             if t0.elapsed() > limit {
+                // where is it? two samples of every thread, one second apart (hang rule)
+                diag = format!("{} || {}", proc_threads(self.pid), {
+                    std::thread::sleep(Duration::from_secs(1));
+                    proc_threads(self.pid)
+                });
                 unsafe {
                     libc::kill(self.pid, libc::SIGKILL);
                     libc::waitpid(self.pid, &mut status, 0);
@@ -209,6 +256,10 @@ impl Child {
             libc::fcntl(fd, libc::F_SETFL, fl | libc::O_NONBLOCK);
         }
         let _ = self.report.read_to_end(&mut buf);
+        if !diag.is_empty() {
+            buf.extend_from_slice(TIMEOUT_DIAG.as_bytes());
+            buf.extend_from_slice(diag.as_bytes());
+        }
         (end, buf)
     }
 
@@ -255,7 +306,9 @@ pub fn exec_in_child(
         0
     });
     let (end, buf) = child.wait(limit);
-    let parsed = serde_json::from_slice::<serde_json::Value>(&buf).ok().map(|v| {
+    // (a child that ran into the limit has thread samples appended to its report)
+    let own_len = String::from_utf8_lossy(&buf).find(TIMEOUT_DIAG).unwrap_or(buf.len());
+    let parsed = serde_json::from_slice::<serde_json::Value>(&buf[..own_len.min(buf.len())]).ok().map(|v| {
         if v["ok"].as_bool() == Some(true) {
             let mut o = crate::engine::Outcome::new(v["nontrivial"].as_bool().unwrap_or(false), v["class"].as_str().unwrap_or("").to_string());
             if let Some(a) = v["counters"].as_array() {
